@@ -18,6 +18,10 @@ use serde_json::{json, Value};
 
 pub fn rule_alphabet() -> Vec<&'static str> {
     vec![
+        // body variables named like the variables completion generates for the heads (V1, V2)
+        "q(X) :- p(X, V1).",
+        "p(X) :- in(X), in(V1), X != V1.",
+        "p(V2, X) :- in(X), in(V2), in(V1), V1 < X.",
         "p(X) :- in(X).",
         "p(X) :- q(X).",
         "p(X+1) :- q(X).",
@@ -367,7 +371,7 @@ pub fn run(run: &Run) {
     let total = all.len();
     run.set_extra("programs_generated", json!(total));
     run.set_extra("windows", json!([W0, W0 + 3]));
-    run.set_rule("part 1: every program of 1-3 rules over a 40-rule alphabet (heads basic/choice/constraint over p/1,p/2,q/1,r/0, bodies with in/1, negation, double negation, comparisons, intervals, arithmetic) that the real is_tight() accepts x every subset of non-head predicates as inputs x all classical interpretations: completion(tau*(P), inputs) vs stable models with inputs from the reference semantics (HT truth table, minimality by enumeration). part 2: every theory of 1-2 formulas over 33 implication shapes (incl. heads that permute the same variables): listed non-completability reasons => completion refuses; accepted theories vs supported-model semantics. non-trivial = distinct stable-model table neither empty nor full");
+    run.set_rule("part 1: every program of 1-3 rules over a 43-rule alphabet (heads basic/choice/constraint over p/1,p/2,q/1,r/0, bodies with in/1, negation, double negation, comparisons, intervals, arithmetic) that the real is_tight() accepts x every subset of non-head predicates as inputs x all classical interpretations: completion(tau*(P), inputs) vs stable models with inputs from the reference semantics (HT truth table, minimality by enumeration). part 2: every theory of 1-2 formulas over 33 implication shapes (incl. heads that permute the same variables): listed non-completability reasons => completion refuses; accepted theories vs supported-model semantics. non-trivial = distinct stable-model table neither empty nor full");
     run.assume("finite slice as in C01; stable models are computed among interpretations over U with inputs fixed to the interpretation's own input facts");
     let limit = if quick { 8 } else { 9 };
     let idx: Vec<usize> = (0..total).collect();
